@@ -304,23 +304,22 @@ Definition aus (f : fault) (s : store) (c : cache) (n : nat) (u target : N) (mod
 (* the trigger of the finding "banned-user-attached": a {sub} from a cached subscriber that
    changes nothing and leaves the requested mode without J is answered 200 and the session
    is attached (subscriptionReply treats "no mode change" as "has joined"). *)
+Definition stale_cond (c : cache) (u : N) (want : list N) : bool :=
+  match alookup u (c_users c) with
+  | None => false
+  | Some p0 =>
+    let '(mw, okw) := tus_mw want in
+    okw &&
+    match tus_chk c u mw (p_want p0) (p_given p0) with
+    | None => false
+    | Some (mw1, g1, _) =>
+      let w1 := tus_w1 c u mw1 g1 (p_want p0) in
+      negb (is_joiner w1) && (w1 =? p_want p0)%N && (g1 =? p_given p0)%N
+    end
+  end.
 Definition stale_ban_sub (sm : sessmap) (x : state) (o : op) : bool :=
   match o with
-  | OSub sid want _ =>
-    let c := view x in
-    let u := sess_uid sm sid in
-    match alookup u (c_users c) with
-    | None => false
-    | Some p0 =>
-      let '(mw, okw) := tus_mw want in
-      okw &&
-      match tus_chk c u mw (p_want p0) (p_given p0) with
-      | None => false
-      | Some (mw1, g1, _) =>
-        let w1 := tus_w1 c u mw1 g1 (p_want p0) in
-        negb (is_joiner w1) && (w1 =? p_want p0)%N && (g1 =? p_given p0)%N
-      end
-    end
+  | OSub sid want _ => stale_cond (view x) (sess_uid sm sid) want
   | _ => false
   end.
 
